@@ -240,7 +240,13 @@ def blame(fn, args, modes, cache, depth=0):
 def run_case(item):
     """One (element, arguments, representation) case, in a forked worker."""
     fnname, args, modes = item
+    import random
     from vyxal import elements as E
+    # a few scalar overloads draw from `random`; make the draws a function of their
+    # arguments (this worker process only) so that "the element's result on an item" exists
+    random.choice = lambda seq: seq[0]
+    random.randint = lambda a, b: a
+    random.shuffle = lambda x: None
     fn = getattr(E, fnname)
     cache = {}
     t0 = time.time()
